@@ -16,6 +16,8 @@ pub enum SigKind {
     Poly { c: f64, s: f64, coef: Vec<f64> },
     /// explicit samples (zero beyond the end)
     Table(Vec<f64>),
+    /// the noise signal scaled into the subnormal range of the sample type
+    Faint(f64),
 }
 
 #[derive(Clone, Debug)]
@@ -40,6 +42,7 @@ impl Sig {
                 let slow = 0.4 * ((n as f64) * 0.001 * (1.0 + ch as f64 * 0.37) + ch as f64).sin();
                 noise + slow
             }
+            SigKind::Faint(scale) => Sig { seed: self.seed, kind: SigKind::Noise }.at(ch, n) * scale,
             SigKind::Index => (n + 1) as f64 + 1000.0 * ch as f64 * 0.0, // same id in every channel
             SigKind::Zero => 0.0,
             SigKind::Tones(ts) => {
